@@ -21,7 +21,7 @@
    explored on the delaying bus (codes 21/22); Model/NSim.v is also compared with Model/Sim.v by
    evaluation on every flat case of that exploration (code 23).  Property theorems only. *)
 From TV Require Import Base Model.Wiring Model.Ticker Model.Component Model.Sim Model.SimTime Model.Inline Model.NSim Oracle.SimCheck
-  Proofs.WiringP Proofs.TickerP Proofs.SimP Proofs.EqvP Proofs.InlineP Proofs.InlineScopeP Proofs.InlineLatestP Proofs.ScheduleP Proofs.SimTraceP.
+  Proofs.WiringP Proofs.TickerP Proofs.SimP Proofs.EqvP Proofs.ParDevP Proofs.InlineP Proofs.InlineScopeP Proofs.InlineLatestP Proofs.ScheduleP Proofs.SimTraceP.
 
 (* two arbitrary runs of the same tick (same wiring, time, roots), possibly incomplete and
    under different answer orders, whose answers are given by one deterministic function of
